@@ -70,9 +70,10 @@ def _val_eq(got, exp):
     return got == exp
 
 
-def diff_frame(got, exp_cols, exp_rows, check_index=True):
+def diff_frame(got, exp_cols, exp_rows, check_index=True, labels=None):
     """None if `got` is a DataFrame with exactly the columns exp_cols (in order), the rows exp_rows (list of
-    tuples, in order, values unchanged) and index 0..n-1; otherwise (class, text)."""
+    tuples, in order, values unchanged) and index 0..n-1 (or, if given, the index labels `labels`, in order);
+    otherwise (class, text)."""
     if not isinstance(got, pd.DataFrame):
         return "not-a-frame", "result is %s" % type(got).__name__
     if [str(c) for c in got.columns] != list(exp_cols):
@@ -84,7 +85,11 @@ def diff_frame(got, exp_cols, exp_rows, check_index=True):
         for k, e in enumerate(exp):
             if not _val_eq(cols[k][r], e):
                 return "values-differ", "row %d column %s: %r, expected %r" % (r, exp_cols[k], cols[k][r], e)
-    if check_index and list(got.index) != list(range(len(exp_rows))):
+    if check_index and labels is not None:
+        have = list(got.index)
+        if len(have) != len(labels) or any(type(h) is bool or h != e for h, e in zip(have, labels)):
+            return "index-labels-differ", "index %s, expected the labels of the frame %s" % (have, list(labels))
+    elif check_index and list(got.index) != list(range(len(exp_rows))):
         return "index-not-continuing", "index %s, expected 0..%d" % (list(got.index), len(exp_rows) - 1)
     return None
 
@@ -187,15 +192,16 @@ def _exp_rows(colvals, cols, n):
     return [tuple(colvals[c][r] for c in cols) for r in range(n)]
 
 
-def run_reader_case(reader, allcols, colvals, n, cols, chunk_size, with_read=True):
-    """-> list of (class, text) problems for one (reader, columns, chunk size)."""
+def run_reader_case(reader, allcols, colvals, n, cols, chunk_size, with_read=True, labels=None):
+    """-> list of (class, text) problems for one (reader, columns, chunk size); labels: the expected index
+    labels (None = 0..n-1)."""
     want = list(allcols) if cols is None else list(cols)
     exp = _exp_rows(colvals, want, n)
     probs = []
     try:
         if with_read:
             whole = reader.read() if cols is None else reader.read(columns=list(cols))
-            bad = diff_frame(whole, want, exp)
+            bad = diff_frame(whole, want, exp, labels=labels)
             if bad:
                 probs.append(("read-" + bad[0], "read(): " + bad[1]))
     except Exception as e:                                            # noqa: BLE001
@@ -215,7 +221,7 @@ def run_reader_case(reader, allcols, colvals, n, cols, chunk_size, with_read=Tru
                     probs.append(("chunks-columns-differ", "chunk columns %s, expected %s"
                                   % (list(ch.columns), want)))
                     break
-            bad = diff_frame(cat, want, exp)
+            bad = diff_frame(cat, want, exp, labels=labels)
             if bad:
                 probs.append(("chunks-" + bad[0], "chunks(%d): %s" % (chunk_size, bad[1])))
     except Exception as e:                                            # noqa: BLE001
@@ -375,6 +381,116 @@ def _const_reader(name, readers):
     vals["c"] = [True] * n
     return (ComputedTabularDataReader(base_reader, "c", np.dtype("bool"), lambda t: np.full(len(t), True)),
             list(allcols) + ["c"], vals)
+
+
+# ------------------------------------------------------------------------------------------------ frames with an index
+# The in-memory frame reader is handed frames as they occur in a pipeline: filtered (index with gaps), re-sorted
+# (permuted index), cut out of a larger frame (offset index), labelled with strings. "Equals reading the table in
+# one piece ... with a row index that continues across chunks" then means: the rows in frame ORDER (by position),
+# carrying the frame's own index labels, whole and chunk-wise.  Only readers whose parts all carry that same index
+# are judged (frame, renamed frame, frames joined with frames, computed column over a frame): joining such a frame
+# with a file (labels 0..n-1) has no unambiguous meaning in the statement.
+INDEX_KINDS = ["gapped", "permuted", "reversed", "offset-by-one", "offset-far", "strings"]
+
+
+def make_indexed_frame(n, seed, kind):
+    """-> (frame with n rows whose index is not 0..n-1, {column: expected values}, expected index labels); the
+    expected values / labels are taken from python lists by position, not from the frame."""
+    rng = random.Random(seed * 1000 + 13 * n + INDEX_KINDS.index(kind))
+    if kind == "gapped":                                  # a filtered frame: n of the rows 1..2n+2 of a larger table
+        big = make_table(2 * n + 3, seed + 41)
+        pos = sorted(rng.sample(range(1, len(big)), n))
+        mask = pd.Series([r in pos for r in range(len(big))], dtype="bool")
+        return big[mask], {c: [big[c].tolist()[p] for p in pos] for c in COLS}, pos
+    t = make_table(n, seed + 41)
+    vals = {c: t[c].tolist() for c in COLS}
+    if kind == "permuted":                                # a frame re-sorted by a score column (best first)
+        order = sorted(range(n), key=lambda r: -vals["f"][r])
+        if order == list(range(n)):                       # already sorted: sort the other way round
+            order = sorted(range(n), key=lambda r: vals["f"][r])
+        frame = t.iloc[order]                             # = sort_values("f") with ties in a defined order
+    elif kind == "reversed":
+        order = list(range(n - 1, -1, -1))
+        frame = t.iloc[::-1]
+    else:
+        order = list(range(n))
+        if kind == "offset-by-one":                       # labels 1..n: overlap the positions, shifted by one
+            labels = list(range(1, n + 1))
+            frame = t.set_axis(pd.RangeIndex(1, n + 1), axis=0)
+        elif kind == "offset-far":                        # the tail of a larger frame
+            start = 1000 + 7 * seed + n
+            labels = list(range(start, start + n))
+            frame = t.set_axis(pd.RangeIndex(start, start + n), axis=0)
+        elif kind == "strings":
+            labels = ["psm_%d" % k for k in range(n)]
+            rng.shuffle(labels)
+            frame = t.set_axis(pd.Index(labels, dtype="object"), axis=0)
+        else:
+            raise ValueError(kind)
+        return frame, vals, labels
+    return frame, {c: [vals[c][r] for r in order] for c in COLS}, order
+
+
+def build_frame_readers(df, base):
+    """Readers over the frame df (and over column slices of it, which carry the same index)."""
+    from mokapot.tabular_data import DataFrameReader, ColumnMappedReader
+    from mokapot.streaming import ComputedTabularDataReader, join_readers
+    n = len(df)
+    out = {"dataframe": (DataFrameReader(df.copy()), COLS, base)}
+    mcols = [MAP.get(c, c) for c in COLS]
+    mbase = {MAP.get(c, c): v for c, v in base.items()}
+    out["mapped-dataframe"] = (ColumnMappedReader(DataFrameReader(df.copy()), dict(MAP)), mcols, mbase)
+    out["joined-frame+frame"] = (
+        join_readers([DataFrameReader(df[["b", "g", "f"]].copy()), DataFrameReader(df[["s", "i"]].copy())]),
+        ["b", "g", "f", "s", "i"], base)
+    cbase = dict(base)
+    cbase["c"] = [2 * v + 1 for v in base["i"]]
+    out["computed-dataframe"] = (ComputedTabularDataReader(DataFrameReader(df.copy()), "c", np.dtype("int64"),
+                                                           lambda t: t["i"] * 2 + 1), COLS + ["c"], cbase)
+    kbase = dict(mbase)
+    kbase["c"] = [True] * n
+    out["computed-const-mapped-dataframe"] = (
+        ComputedTabularDataReader(ColumnMappedReader(DataFrameReader(df.copy()), dict(MAP)), "c", np.dtype("bool"),
+                                  lambda t: np.full(len(t), True)), mcols + ["c"], kbase)
+    return out
+
+
+def _indexed_frame_task(task):
+    n, seed, kind = task
+    ev = _Events()
+    df, base, labels = make_indexed_frame(n, seed, kind)
+    for name, (reader, allcols, colvals) in build_frame_readers(df, base).items():
+        for cols in column_requests(name, allcols):
+            for cs in range(1, n + 2):
+                ev.case((name, kind, n, cols, cs), nontrivial=n >= 2 and cs < n)
+                for cls, text in run_reader_case(reader, allcols, colvals, n, cols, cs, with_read=(cs == 1),
+                                                 labels=labels):
+                    ev.violation("%s-%s-index-%s" % (name, kind, cls), "%s over a frame with %s index: %s"
+                                 % (name, kind, text),
+                                 {"reader": name, "n": n, "seed": seed, "index_kind": kind, "columns": cols,
+                                  "chunk_size": cs})
+    return ev.events
+
+
+def check_frame_readers_indexed(tier, seed):
+    ns = _sizes(tier)
+    ck = Check("frame_readers_indexed_tables",
+               "mokapot.tabular_data.{DataFrameReader,ColumnMappedReader}, mokapot.streaming."
+               "{JoinedTabularDataReader,ComputedTabularDataReader,join_readers}: read / get_chunked_data_iterator",
+               "exhaustive over: one seeded frame (seed %d) per row count 0..%d and index kind (gapped = a boolean-"
+               "filtered larger frame; permuted = sorted by a score column; reversed; offset-by-one = labels 1..n; "
+               "offset-far = labels 1000+..; strings = shuffled text labels; labels always unique); every chunk "
+               "size 1..n+1; the column requests of readers_chunked_equals_whole (default, all, reversed, subsets in "
+               "permuted order); 5 readers whose parts all carry the frame's index (frame, renamed frame, two column "
+               "slices of the frame joined, computed column over the frame, constant computed column over the renamed "
+               "frame)" % (seed, ns[-1]),
+               "oracle = the rows of the frame by POSITION with the frame's own index labels (both taken from python "
+               "lists, not from the frame): read(columns) and the concatenated chunks must both equal "
+               "table[columns] (ints/strings/bools exactly, floats 1e-12) including the index labels in order; "
+               "non-trivial = at least 2 rows and chunk size < n (more than one chunk)")
+    tasks = [(n, seed, kind) for n in reversed(ns) for kind in reversed(INDEX_KINDS)]
+    _run_tasks(ck, _indexed_frame_task, tasks)
+    return ck
 
 
 # ------------------------------------------------------------------------------------------------ writers
@@ -1069,6 +1185,12 @@ def REPLAY(check_name, violation):
             reader, allcols, colvals = readers[name] if name in readers else _const_reader(name, readers)
             probs = run_reader_case(reader, allcols, colvals, n, inp["columns"], inp["chunk_size"])
         return {"violated": bool(probs), "detail": probs}
+    if check_name == "frame_readers_indexed_tables":
+        n, seed = inp["n"], inp["seed"]
+        df, base, labels = make_indexed_frame(n, seed, inp["index_kind"])
+        reader, allcols, colvals = build_frame_readers(df, base)[inp["reader"]]
+        probs = run_reader_case(reader, allcols, colvals, n, inp["columns"], inp["chunk_size"], labels=labels)
+        return {"violated": bool(probs), "detail": probs}
     if check_name == "writers_read_back":
         n, seed = inp["n"], inp["seed"]
         df = make_table(n, seed + 17)
@@ -1113,10 +1235,18 @@ def _timed(checks):
 if __name__ == "__main__":
     a = args()
     np.random.seed(a.seed)
-    emit(_timed([(check_readers, a.tier, a.seed), (check_writers, a.tier, a.seed),
+    emit(_timed([(check_readers, a.tier, a.seed), (check_frame_readers_indexed, a.tier, a.seed),
+                 (check_writers, a.tier, a.seed),
                  (check_writers_reused_objects, a.tier, a.seed), (check_writer_layouts, a.tier, a.seed)]),
-         ["tables have a default RangeIndex, no missing values and no text a CSV parser re-interprets: value "
-          "round-tripping through CSV text / Parquet is a pandas / pyarrow matter",
+         ["tables have no missing values and no text a CSV parser re-interprets: value round-tripping through CSV "
+          "text / Parquet is a pandas / pyarrow matter; tables have a default RangeIndex except in "
+          "frame_readers_indexed_tables",
+          "frame_readers_indexed_tables: for an in-memory frame whose index is not 0..n-1 (gapped, permuted, "
+          "reversed, offset, text labels; unique labels) 'reading the table in one piece' is read as the rows in "
+          "frame order WITH the frame's own index labels, and the chunks must continue that index; only readers "
+          "whose parts all carry that index are judged (frame, renamed, frame joined with frame, computed column): a "
+          "frame with such an index joined with a file reader (labels 0..n-1) is not covered, the statement gives "
+          "no unambiguous expectation there; duplicate index labels are not covered",
           "the appended rows are the values the handed-over object (list of dicts, dict, frame, numpy.record) has when "
           "append_data is called: what the caller does with that object after the call returned (clearing / "
           "refilling the list, updating the dict, overwriting the frame or record array) must not reach the file "
